@@ -117,12 +117,13 @@ Theorem C03_srt_double_break_refuted : exists ns,
 Proof. exact srt_double_break_refuted. Qed.
 Print Assumptions C03_srt_double_break_refuted.
 
-(* ---- MicroDVD (texts without '|') ---- *)
-Theorem C03_mdvd_content_shape : forall ns, texts_no 10 ns = true -> mdvd_content ns = mdvd_text ns ++ [10].
+(* ---- MicroDVD (texts without '|' and without CR / LF: the writer turns a line end inside a text node into '|') ---- *)
+Theorem C03_mdvd_content_shape : forall ns, texts_no 10 ns = true -> texts_no 13 ns = true ->
+  mdvd_content ns = mdvd_text ns ++ [10].
 Proof. exact mdvd_content_shape. Qed.
 Print Assumptions C03_mdvd_content_shape.
 
-Theorem C03_mdvd_text_lines : forall ns, texts_no 124 ns = true ->
+Theorem C03_mdvd_text_lines : forall ns, texts_no 124 ns = true -> texts_no 10 ns = true -> texts_no 13 ns = true ->
   norm_lines (split_ch 124 (mdvd_text ns)) = norm_lines (node_lines ns).
 Proof. exact mdvd_text_lines. Qed.
 Print Assumptions C03_mdvd_text_lines.
